@@ -5,6 +5,7 @@
 package canary
 
 import (
+	"bytes"
 	"context"
 	"errors"
 	"sync"
@@ -249,4 +250,27 @@ func LenViaNegatedBoolOK(b []byte) [4]byte {
 		return [4]byte{}
 	}
 	return [4]byte(b)
+}
+
+// ---- pooled memory
+var bufPool = sync.Pool{New: func() any { return new(bytes.Buffer) }}
+
+func PoolLeakBad(a, b []byte) []byte {
+	buf := bufPool.Get().(*bytes.Buffer)
+	defer bufPool.Put(buf)
+	buf.Reset()
+	buf.Write(a)
+	buf.Write(b)
+	return buf.Bytes()
+}
+
+func PoolCopyOK(a, b []byte) []byte {
+	buf := bufPool.Get().(*bytes.Buffer)
+	defer bufPool.Put(buf)
+	buf.Reset()
+	buf.Write(a)
+	buf.Write(b)
+	out := make([]byte, buf.Len())
+	copy(out, buf.Bytes())
+	return out
 }
